@@ -11,7 +11,8 @@
    isneeded <store> <refs> <4 flags 0/1: use_queue skip_queue_when_not_needed already_in_queue queued_prs_nonempty>
             <src> <dst> <pairs w:dst,... (the first one is src:dst)> -> 1 | 0                    (Gate.is_needed)
    incl <store> <refs> <pairs a:b,...>          -> 1 | 0
-   anc <store> <a> <b>                          -> 1 | 0 *)
+   anc <store> <a> <b>                          -> 1 | 0
+   pipe ...                                     -> see ocaml/Pipeline_driver.ml (must precede this file) *)
 let split c s = if s = "-" || s = "" then [] else String.split_on_char c s
 let parse_store s : commit list =
   if s = "-" then [] else
@@ -53,5 +54,5 @@ let flow_handle (l : String.t) : String.t =
   | ["incl"; st; refs; pairs] ->
     word_of_bool (incl_b { st = parse_store st; refs = parse_refs refs } (parse_refs pairs))
   | ["anc"; st; a; b] -> word_of_bool (anc (parse_store st) (nat_of_int (int_of_string a)) (nat_of_int (int_of_string b)))
-  | _ -> "ERR bad request"
+  | ws -> (match pipe_handle ws with Some r -> r | None -> "ERR bad request")
   with e -> "ERR " ^ Printexc.to_string e
